@@ -214,6 +214,7 @@ async def _drive_actor(case: dict[str, Any], log: list[Any]) -> None:
         a = _make_actor(case["runs"], log, "a")
         t0 = loop.time()
         bg: list[asyncio.Task[Any]] = []
+        earlier_lives: set[Any] = set()
 
         async def call(kind: str, t: float) -> None:
             entry = {"ev": "call", "what": kind, "t": t, "running_before": a.is_running,
@@ -235,8 +236,10 @@ async def _drive_actor(case: dict[str, Any], log: list[Any]) -> None:
                 if isinstance(e, BaseExceptionGroup):
                     entry["group"] = sorted(type(x).__name__ for x in e.exceptions)
             entry["tasks_at_call_all_done"] = all(x.done() for x in tasks_at_call)
-            entry["task_errors"] = sorted(type(x.exception()).__name__ for x in tasks_at_call
+            entry["task_errors"] = sorted(type(x.exception()).__name__ for x in tasks_at_call - earlier_lives
                                           if x.done() and not x.cancelled() and x.exception() is not None)
+            if tasks_at_call & earlier_lives:
+                entry["tasks_of_an_earlier_life_still_registered"] = len(tasks_at_call & earlier_lives)
             entry["running_after"] = a.is_running
 
         for t, act in case["driver"]:
@@ -245,6 +248,10 @@ async def _drive_actor(case: dict[str, Any], log: list[Any]) -> None:
                 await asyncio.sleep(dt)
             if act == "start":
                 log.append({"ev": "call", "what": "start", "t": t, "running_before": a.is_running})
+                if not a.is_running:
+                    # a new life begins: what the previous life left behind (finished, never collected) is not the
+                    # business of a later stop() / wait()
+                    earlier_lives.update(x for x in a.tasks if x.done())
                 a.start()
             elif act == "cancel":
                 log.append({"ev": "call", "what": "cancel", "t": t, "running_before": a.is_running})
